@@ -403,7 +403,8 @@ def main():
         'solver_time_s': round(solver_s, 2),
         'backends': sorted({o.get('backend') for o in obs if o.get('backend')}),
         'explanation': info['explanation'],
-        'samples': [{'obligation': o['name'], 'clause': o.get('text'), 'verdict': o['verdict']} for o in obs[:6]] or
+        'samples': [{'obligation': o['name'], 'clause': o.get('text'), 'verdict': o['verdict'], 'backend': o.get('backend')}
+                    for o in (sorted(obs, key=lambda o: (not o.get('text'), o['kind'] not in ('post', 'call-assert', 'lemma', 'yield', 'ghost-assert')))[:8])] or
                    [{'note': 'no deductive obligations for this property'}],
     }
     if bounded is not None:
